@@ -25,6 +25,16 @@ Theorem lv_encoding_canonical : forall m,
     enc_language_views m = e_map (len m) ++ concat (map enc_entry entries).
 Proof. exact lv_encoding_proof. Qed.
 
+(* the same bytes as the serialisation of one CBOR item: a definite map with shortest heads whose
+   pairs are, in canonical key order, (uint k, definite array of ints) and, last,
+   (bytes 00, bytes (indefinite array of ints)) *)
+Theorem lv_encoding_is_item : forall m,
+  wf_lviews m = true ->
+  exists entries,
+    Permutation entries m /\ StronglySorted key_lt (map fst entries) /\
+    enc_language_views m = encode_item (Map (min_width (len m)) (map entry_item entries)).
+Proof. exact lv_item_proof. Qed.
+
 Theorem lv_entry_shape : forall lang c,
   enc_lv_entry lang c =
   if lang =? 0 then [65; 0] ++ e_bytes ([159] ++ concat (map e_int c) ++ [255])
